@@ -325,6 +325,16 @@ orc_x86_load_constants_inner (OrcCompiler *c)
               c->vars[insn->src_args[1]].value.i,
               c->vars[insn->src_args[0]].ptr_offset);
         }
+        /* The rules only keep the fraction in ptr_offset: move the integer
+         * part of the start position into the pointer */
+        orc_x86_emit_mov_reg_reg (c, 4, c->vars[insn->src_args[0]].ptr_offset,
+            c->gp_tmpreg);
+        orc_x86_emit_sar_imm_reg (c, 4, 16, c->gp_tmpreg);
+        orc_x86_emit_add_reg_reg_shift (c, c->is_64bit ? 8 : 4, c->gp_tmpreg,
+            c->vars[insn->src_args[0]].ptr_register,
+            (opcode->name[strlen (opcode->name) - 1] == 'l') ? 2 : 0);
+        orc_x86_emit_and_imm_reg (c, 4, 0xffff,
+            c->vars[insn->src_args[0]].ptr_offset);
       }
     }
   }
